@@ -51,16 +51,93 @@ an edge of the documented graph. -/
 theorem C03_concurrent (cfg : Cfg) (hm : cfg.mode = .current) (s : St) (f : Fields) (ops : List XOp) :
     ∀ p ∈ events (run cfg (init s f) ops), edge cfg.dir p.1 p.2 = true := by
   intro p hp
-  have hinv := run_inv C03_table_edges cfg hm ops _ (init_inv cfg s f)
+  have hinv := run_inv C03_table_edges cfg s hm ops _ (init_inv cfg s f)
   simp only [events, List.mem_filterMap, List.mem_reverse] at hp
   obtain ⟨it, hmem, hsome⟩ := hp
   cases it with
   | eff id e => simp at hsome
   | ret id ok => simp at hsome
-  | event id a b =>
+  | trans id a b => simp at hsome
+  | event id li a b =>
     simp only [Option.some.injEq] at hsome
     subst hsome
-    exact hinv.events id a b hmem
+    exact hinv.events id li a b hmem
+
+/-- **The state changes themselves, all op lists.** The assignments `self.state = …` the transfer made,
+read from the state the run started in, form one walk along documented edges that ends in the
+current state: each is an edge, and each starts where the previous one ended. -/
+theorem C03_transitions_walk (cfg : Cfg) (hm : cfg.mode = .current) (s : St) (f : Fields)
+    (ops : List XOp) :
+    follows s (transitions (run cfg (init s f) ops)) = some (run cfg (init s f) ops).cur ∧
+    ∀ p ∈ transitions (run cfg (init s f) ops), edge cfg.dir p.1 p.2 = true := by
+  have hinv := run_inv C03_table_edges cfg s hm ops _ (init_inv cfg s f)
+  refine ⟨?_, ?_⟩
+  · rw [transitions_eq]; exact hinv.chain.follows
+  · intro p hp
+    simp only [transitions, List.mem_filterMap, List.mem_reverse] at hp
+    obtain ⟨it, hmem, hsome⟩ := hp
+    cases it with
+    | eff id e => simp [Item.change] at hsome
+    | ret id ok => simp [Item.change] at hsome
+    | event id li a b => simp [Item.change] at hsome
+    | trans id a b =>
+      simp only [Item.change, Option.some.injEq] at hsome
+      subst hsome
+      exact hinv.transOk id a b hmem
+
+/-- **Listeners observe exactly the edges taken, in order — every listener, all op lists.** With any
+number of registered listeners, any of which may suspend for as long as the environment likes, and
+whatever requests arrive meanwhile: the sequence of `(old, new)` pairs given to listener number `li`
+is the sequence of state changes of the transfer — except while the lock holder is suspended inside
+an *earlier* listener (`p.pos < li`) of the newest change, when listener `li` has been given all but
+that newest change `(p.old, current state)` (it is next in line). In particular, whenever the lock is
+free all listeners have been given the same sequence. (`Transfer.transition` reads `self.state` again
+for every listener — model.py:236; the pair is right because the lock is held until the last listener
+has returned.) -/
+theorem C03_listeners_told_the_transitions (cfg : Cfg) (hm : cfg.mode = .current) (s : St)
+    (f : Fields) (ops : List XOp) (li : Nat) (hli : li < cfg.listeners.length) :
+    (told li (run cfg (init s f) ops) = transitions (run cfg (init s f) ops) ∨
+      ∃ p, (run cfg (init s f) ops).holder = some p ∧ p.notified = true ∧ p.pos < li ∧
+        told li (run cfg (init s f) ops) ++ [(p.old, (run cfg (init s f) ops).cur)]
+          = transitions (run cfg (init s f) ops)) ∧
+    ((run cfg (init s f) ops).holder = none →
+      told li (run cfg (init s f) ops) = transitions (run cfg (init s f) ops)) := by
+  have hinv := run_inv C03_table_edges cfg s hm ops _ (init_inv cfg s f)
+  generalize run cfg (init s f) ops = x at hinv
+  rw [told_eq, transitions_eq]
+  refine ⟨?_, ?_⟩
+  · cases hh : x.holder with
+    | none => exact Or.inl (by rw [hinv.quiet_of_free hh li hli])
+    | some p =>
+      cases hn : p.notified with
+      | false =>
+        refine Or.inl ?_
+        rw [hinv.quiet (by intro q hq; rw [hh] at hq; cases hq; exact hn) li hli]
+      | true =>
+        obtain ⟨_, _, hle, hgt⟩ := hinv.telling p hh hn
+        by_cases hpos : li ≤ p.pos
+        · exact Or.inl (by rw [hle li hpos])
+        · refine Or.inr ⟨p, rfl, hn, by omega, ?_⟩
+          rw [hgt li (by omega) hli, List.reverse_cons]
+  · intro hh
+    rw [hinv.quiet_of_free hh li hli]
+
+/-- …hence what any one listener is given is itself a walk from the state the run started in: each
+pair starts where the previous one ended (and each is an edge, `C03_concurrent`), and when the lock
+is free the walk ends in the current state. -/
+theorem C03_each_listener_walk (cfg : Cfg) (hm : cfg.mode = .current) (s : St) (f : Fields)
+    (ops : List XOp) (li : Nat) (hli : li < cfg.listeners.length) :
+    ∃ e, follows s (told li (run cfg (init s f) ops)) = some e ∧
+      ((run cfg (init s f) ops).holder = none → e = (run cfg (init s f) ops).cur) := by
+  obtain ⟨h1, h2⟩ := C03_listeners_told_the_transitions cfg hm s f ops li hli
+  have hw := (C03_transitions_walk cfg hm s f ops).1
+  generalize run cfg (init s f) ops = x at h1 h2 hw
+  rcases h1 with h | ⟨p, hp, _, _, h⟩
+  · exact ⟨x.cur, by rw [h]; exact hw, fun _ => rfl⟩
+  · rw [← h, follows_append] at hw
+    cases hf : follows s (told li x) with
+    | none => rw [hf] at hw; simp at hw
+    | some e => exact ⟨e, rfl, fun hh => by rw [hp] at hh; cases hh⟩
 
 /-- …and the transition the suspended lock holder is about to make is an edge from the state the
 transfer is in *now* (the invariant that makes the induction go through). -/
@@ -68,11 +145,11 @@ theorem C03_pending_is_edge (cfg : Cfg) (hm : cfg.mode = .current) (s : St) (f :
     (ops : List XOp) (p : Pending) (h : (run cfg (init s f) ops).holder = some p)
     (hn : p.notified = false) :
     edge cfg.dir (run cfg (init s f) ops).cur p.target = true :=
-  (run_inv C03_table_edges cfg hm ops _ (init_inv cfg s f)).pending p h hn
+  (run_inv C03_table_edges cfg s hm ops _ (init_inv cfg s f)).pending p h hn
 
 /-- **Refused ⇒ no effect, all op lists.** The trace of who-did-what is a sequence of blocks, each
-either a lone `ret id false` or the effects of a single call followed by its one listener event and
-`ret id true` (`Shape`, `Proofs/Transfer.lean`); hence invocations never interleave under the lock, and a refused call has
+either a lone `ret id false` or the effects of a single call followed by its one state change, the
+listener events of that change and `ret id true` (`Shape`, `Proofs/Transfer.lean`); hence invocations never interleave under the lock, and a refused call has
 done nothing: what precedes its `ret id false` in the trace is the return of an earlier call (or
 the beginning), never an effect or an event. -/
 theorem C03_refused_no_effect (cfg : Cfg) (hm : cfg.mode = .current) (s : St) (f : Fields)
@@ -80,7 +157,7 @@ theorem C03_refused_no_effect (cfg : Cfg) (hm : cfg.mode = .current) (s : St) (f
     Shape (phaseOf (run cfg (init s f) ops).holder) (run cfg (init s f) ops).trace ∧
     ∀ pre id rest, (run cfg (init s f) ops).trace = pre ++ .ret id false :: rest →
       rest = [] ∨ ∃ id' ok rest', rest = .ret id' ok :: rest' := by
-  have hinv := run_inv C03_table_edges cfg hm ops _ (init_inv cfg s f)
+  have hinv := run_inv C03_table_edges cfg s hm ops _ (init_inv cfg s f)
   exact ⟨hinv.shape, hinv.shape.refusal_isolated⟩
 
 /-- The wrapper of the pinned commit runs the method of the state object the caller looked up
@@ -116,7 +193,7 @@ example :
 coroutines created first and scheduled together (as manager.py:586-589 does with `gather`): the second
 is dispatched on `QUEUED` and refused — the pinned wrapper made `QUEUED → QUEUED` of it. -/
 example :
-    let cfg : Cfg := { dir := .upload, slowCancel := false, slowFs := false, slowListener := true }
+    let cfg : Cfg := { dir := .upload, slowCancel := false, slowFs := false, listeners := [true] }
     let ops : List XOp := [.create { id := 0, meth := .queue }, .create { id := 1, meth := .queue },
                            .start 0, .start 1]
     let x := run cfg (init .failed { failReason := some 2 }) ops
@@ -124,6 +201,23 @@ example :
       events (run cfg x [.resume, .resume]) = [(.failed, .queued)] ∧
       events (run { cfg with mode := .captured } (init .failed { failReason := some 2 }) (ops ++ [.resume, .resume]))
         = [(.failed, .queued), (.queued, .queued)] := by decide
+
+/-- three listeners (the manager's own, a journal that suspends, a monitor): `DOWNLOADING`, `abort` with
+`queue` arriving while abort waits for the cancelled tasks. While abort is suspended in the journal the
+monitor has not yet been told `DOWNLOADING → ABORTED` and `queue` still waits; once the journal has
+returned twice all three have been told `DOWNLOADING → ABORTED, ABORTED → QUEUED` — never
+`DOWNLOADING → QUEUED`. -/
+example :
+    let cfg : Cfg := { dir := .download, slowCancel := true, slowFs := false, listeners := [false, true, false] }
+    let ops : List XOp := [.call { id := 0, meth := .abort, reason := some 1 }, .call { id := 1, meth := .queue },
+                           .resume]
+    let x := run cfg (init .downloading { tasksLive := true, startTime := some 0 }) ops
+    x.cur = .aborted ∧ (x.holder.map (·.pos)) = some 1 ∧ x.waiters.length = 1 ∧
+      told 0 x = [(.downloading, .aborted)] ∧ told 1 x = [(.downloading, .aborted)] ∧ told 2 x = [] ∧
+      (let y := run cfg x [.resume, .resume]
+       y.cur = .queued ∧ y.holder = none ∧ transitions y = [(.downloading, .aborted), (.aborted, .queued)] ∧
+       told 0 y = transitions y ∧ told 1 y = transitions y ∧ told 2 y = transitions y ∧
+       follows .downloading (told 2 y) = some .queued) := by decide
 
 /-- the graph and the table are not trivial: 32 documented pairs, 31 overridden methods -/
 example : edgeCount = 32 ∧ overriddenCount = 31 := by decide
